@@ -35,7 +35,7 @@ ASSUMPTIONS = [
 ]
 QUERIES = ["$..*", "$..[*]", "$.*", "$[?@]", "$..a", "$..[0]", "$..[*,*]", "$..*.*", "$.*..*", "$..[?@]",
            "$.*[?@]", "$..['a','b']"]
-CAP = 300000
+CAP = 150000
 
 
 def BOUNDS(tier):
